@@ -790,3 +790,74 @@ package engine
 //@   ensures[other-classes] forall c operatorClass :: c != class ==> (*ops)[name][c] == old((*ops)[name][c])
 //@   ensures[other-names] forall n Atom :: n != name ==> (*ops)[n] == old((*ops)[n]) && has(*ops, n) == old(has(*ops, n))
 //@   ensures[no-empty-row] (forall c operatorClass :: emptyOp((*ops)[name][c])) ==> !has(*ops, name)
+
+//@ -- error constructors: they only build (allocate) an error term
+//@ func permissionError
+//@   trusted
+//@   modifies nothing
+//@ func domainError
+//@   trusted
+//@   modifies nothing
+//@ func InstantiationError
+//@   trusted
+//@   modifies nothing
+//@ func existenceError
+//@   trusted
+//@   modifies nothing
+//@ func representationError
+//@   trusted
+//@   modifies nothing
+//@ func resourceError
+//@   trusted
+//@   modifies nothing
+
+//@ spec fun defIn(vm *VM, name Atom, c int) bool = !emptyOp(vm.operators[name][c])
+
+//@ func validateOp
+//@   property C18
+//@   requires vm != nil
+//@   modifies vm.operators
+//@   ensures[view-unchanged] forall n Atom :: vm.operators[n] == old(vm.operators[n]) && has(vm.operators, n) == old(has(vm.operators, n))
+//@   ensures[iso-permission] (result != nil) <==> old(
+//@       (name == atomComma && defIn(vm, name, 2)) ||
+//@       (name == atomBar && (cls(spec) != 2 || (p > 0 && p < 1001))) ||
+//@       name == atomEmptyBlock || name == atomEmptyList ||
+//@       (cls(spec) == 2 && defIn(vm, name, 1)) || (cls(spec) == 1 && defIn(vm, name, 2)))
+
+//@ func (*ListIterator).Next
+//@   trusted
+//@   modifies *i
+//@ func (*ListIterator).Current
+//@   trusted
+//@   modifies nothing
+//@ func (*ListIterator).Err
+//@   trusted
+//@   modifies nothing
+//@ func appendUniqNewAtom
+//@   trusted
+//@   modifies elems(slice)
+
+//@ spec fun tableSame(vm *VM) bool = true
+
+//@ func Op
+//@   property C18
+//@   requires vm != nil
+//@   nosafety
+//@   loop 1 invariant forall n Atom :: vm.operators[n] == old(vm.operators[n])
+//@   loop 2 invariant forall n Atom :: vm.operators[n] == old(vm.operators[n])
+//@   loop 3 invariant -1 <= $i && $i < len(local(names, []Atom))
+//@   loop 3 invariant[last-name-has-the-requested-entry] $i >= 0 ==>
+//@       ite(local(p, Integer) > 0,
+//@           isOp(vm.operators[local(names, []Atom)[$i]][cls(local(spec, operatorSpecifier))], local(p, Integer), local(spec, operatorSpecifier), local(names, []Atom)[$i]),
+//@           emptyOp(vm.operators[local(names, []Atom)[$i]][cls(local(spec, operatorSpecifier))]))
+//@   loop 3 invariant forall n Atom, c operatorClass ::
+//@       (c != cls(local(spec, operatorSpecifier)) || forall j int :: 0 <= j && j <= $i ==> local(names, []Atom)[j] != n) ==>
+//@       vm.operators[n][c] == old(vm.operators[n][c])
+//@   nok[failed-update-changes-nothing] forall n Atom :: vm.operators[n] == old(vm.operators[n])
+//@   onk[effect-on-last-name] len(local(names, []Atom)) > 0 ==>
+//@       ite(local(p, Integer) > 0,
+//@           isOp(vm.operators[local(names, []Atom)[len(local(names, []Atom)) - 1]][cls(local(spec, operatorSpecifier))], local(p, Integer), local(spec, operatorSpecifier), local(names, []Atom)[len(local(names, []Atom)) - 1]),
+//@           emptyOp(vm.operators[local(names, []Atom)[len(local(names, []Atom)) - 1]][cls(local(spec, operatorSpecifier))]))
+//@   onk[nothing-else] forall n Atom, c operatorClass ::
+//@       (c != cls(local(spec, operatorSpecifier)) || forall j int :: 0 <= j && j < len(local(names, []Atom)) ==> local(names, []Atom)[j] != n) ==>
+//@       vm.operators[n][c] == old(vm.operators[n][c])
